@@ -12,6 +12,7 @@ F = "geometry.rs"
 def _on_plane(r, pl): return Eq(dot(sub(r, pl.f["p"]), pl.f["n"]), R0)
 
 
+@isolated('intersect_planes')
 def intersect_planes(prefix):
     u = Unit(F, "intersect_planes")
     p0, p1, p2 = plane("p0"), plane("p1"), plane("p2")
@@ -28,6 +29,7 @@ def intersect_planes(prefix):
     return obs, [u]
 
 
+@isolated('project_onto')
 def project_onto(prefix):
     u = Unit(F, "Plane::project_onto")
     pl, x = plane("pl"), vec("x")
@@ -43,6 +45,7 @@ def project_onto(prefix):
     return obs, [u]
 
 
+@isolated('project_onto_intersection')
 def project_onto_intersection(prefix, modular=True):
     u = Unit(F, "Plane::project_onto_intersection")
     a, b, x = plane("pa"), plane("pb"), vec("x")
@@ -97,6 +100,7 @@ def project_onto_intersection(prefix, modular=True):
     return obs, [u]
 
 
+@isolated('signed_volume_tet')
 def signed_volume_tet(prefix):
     u = Unit(F, "signed_volume_tet")
     v = [vec("v%d" % i) for i in range(4)]
@@ -117,6 +121,7 @@ def signed_volume_tet(prefix):
     return obs, [u]
 
 
+@isolated('signed_area_tri')
 def signed_area_tri(prefix):
     u = Unit(F, "signed_area_tri")
     v0, v1, v2, t = vec("v0"), vec("v1"), vec("v2"), vec("t")
@@ -144,6 +149,7 @@ def _sphere_through(obs, prefix, u, pre, ctx, s, pts, timeout=None):
     ensure(obs, prefix, "radius_nonneg", u, pre, ctx, Ge(s.f["radius"], R0), timeout=timeout)
 
 
+@isolated('from_two_points')
 def from_two_points(prefix):
     u = Unit(F, "Sphere::from_two_points")
     a, b = vec("a"), vec("b")
@@ -155,6 +161,7 @@ def from_two_points(prefix):
     return obs, [u]
 
 
+@isolated('from_three_points')
 def from_three_points(prefix):
     u = Unit(F, "Sphere::from_three_points")
     a, b, c = vec("a"), vec("b"), vec("c")
@@ -168,6 +175,7 @@ def from_three_points(prefix):
     return obs, [u]
 
 
+@isolated('from_four_points')
 def from_four_points(prefix):
     u = Unit(F, "Sphere::from_four_points")
     a, b, c, d = vec("a"), vec("b"), vec("c"), vec("d")
@@ -184,6 +192,7 @@ def from_four_points(prefix):
     return obs, [u]
 
 
+@isolated('extend')
 def extend(prefix):
     u = Unit(F, "Sphere::extend")
     c, x, r = vec("c"), vec("x"), real("r")
@@ -207,6 +216,7 @@ def extend(prefix):
     return obs, [u]
 
 
+@isolated('contains')
 def contains(prefix):
     u = Unit(F, "Sphere::contains")
     c, x, r = vec("c"), vec("x"), real("r")
